@@ -8,6 +8,7 @@ import (
 	"fmt"
 	"io"
 	"net"
+	"os"
 	"sort"
 	"strings"
 	"sync"
@@ -67,6 +68,8 @@ type Server struct {
 	dead   map[string]bool // incarnations whose connections are refused
 	conns  map[int]net.Conn
 	open   int // data commands being executed / gated right now
+
+	standInPanics int
 }
 
 // New starts a server on a loopback port.
@@ -149,6 +152,14 @@ func (s *Server) LogFrom(i int) []Cmd {
 }
 
 // OpenCommands returns the number of data commands in progress (executing or gated).
+// StandInPanics returns how often executing a command panicked inside the stand-in itself
+// (a defect of the harness: checks that see a non-zero value must not report "held").
+func (s *Server) StandInPanics() int {
+	s.mu.Lock()
+	defer s.mu.Unlock()
+	return s.standInPanics
+}
+
 func (s *Server) OpenCommands() int {
 	s.mu.Lock()
 	defer s.mu.Unlock()
@@ -289,7 +300,7 @@ func same(a, b bson.D) bool {
 }
 
 func applyUpdate(doc bson.D, u bson.D, isInsert bool) bson.D {
-	if len(u) > 0 && u[0].Key[0] == '$' {
+	if len(u) > 0 && len(u[0].Key) > 0 && u[0].Key[0] == '$' {
 		for _, op := range u {
 			fields, _ := op.Value.(bson.D)
 			switch op.Key {
@@ -683,7 +694,18 @@ func (s *Server) serve(c net.Conn, id int) {
 		if act.Fail {
 			reply = bson.D{{Key: "ok", Value: 0.0}, {Key: "errmsg", Value: "injected failure"}, {Key: "code", Value: int32(11600)}, {Key: "codeName", Value: "InterruptedAtShutdown"}}
 		} else {
-			reply = s.exec(cmd)
+			// a defect of the stand-in must not look like a hang of the system under test: a
+			// panic while executing a command is answered as a command failure and counted
+			func() {
+				defer func() {
+					if p := recover(); p != nil {
+						s.standInPanics++
+						fmt.Fprintf(os.NewFile(2, "/dev/stderr"), "HARNESS-INTERNAL-ERROR fakemongo panicked while executing %s: %v\n", cmd.Key(), p)
+						reply = bson.D{{Key: "ok", Value: 0.0}, {Key: "errmsg", Value: fmt.Sprintf("fakemongo internal error: %v", p)}, {Key: "code", Value: int32(8)}, {Key: "codeName", Value: "UnknownError"}}
+					}
+				}()
+				reply = s.exec(cmd)
+			}()
 		}
 		if act.SeverAfter {
 			s.dead[app] = true
